@@ -566,3 +566,60 @@ func init() {
 			}
 		}})
 }
+
+func init() {
+	register(&Rule{ID: "CMAP.atomic", Min: 3, Text: "decide and act under one lock (pkg/cmap): in every method of cmap.Map that writes a shard's items (map assignment, delete), each read of items that the write may follow is made in the same critical section — no release of the shard lock (Unlock/RUnlock) lies between the read and the write; Upsert and Delete hand the value to the caller's callback and apply its decision without letting go of the write lock, which is what makes 'delete the subscription set only if it is empty' and 'add to the existing set' exclude each other",
+		Run: func(x *Ctx) {
+			isItems := func(v ssa.Value) bool {
+				f := prog.LoadedField(v)
+				return f != nil && f.Name() == "items" && f.Pkg() != nil && strings.HasSuffix(f.Pkg().Path(), "/pkg/cmap")
+			}
+			n := 0
+			for _, fn := range x.P.FuncsIn("pkg/cmap") {
+				if o := fn.Origin(); o != nil && o != fn {
+					continue
+				}
+				var reads, writes []ssa.Instruction
+				var releases []ssa.Instruction
+				for _, b := range fn.Blocks {
+					for _, ins := range b.Instrs {
+						switch t := ins.(type) {
+						case *ssa.Lookup:
+							if isItems(t.X) {
+								reads = append(reads, t)
+							}
+						case *ssa.MapUpdate:
+							if isItems(t.Map) {
+								writes = append(writes, t)
+							}
+						case *ssa.Call:
+							if bi, ok := t.Call.Value.(*ssa.Builtin); ok && bi.Name() == "delete" && isItems(t.Call.Args[0]) {
+								writes = append(writes, t)
+							}
+							if o := prog.CallObj(t); o != nil && (o.Name() == "Unlock" || o.Name() == "RUnlock") {
+								releases = append(releases, t)
+							}
+						}
+					}
+				}
+				for i, w := range writes {
+					n++
+					bad := ""
+					for _, r := range reads {
+						if !prog.MayPrecede(r, w) {
+							continue
+						}
+						for _, rel := range releases {
+							if prog.MayPrecede(r, rel) && prog.MayPrecede(rel, w) {
+								bad = x.pos(rel)
+							}
+						}
+					}
+					x.check(bad == "", fmt.Sprintf("func=%s write#%d same-critical-section-as-its-reads", prog.FnName(fn), i+1), x.pos(w), "no release of the shard lock between a read of items and this write", "the shard lock is released (at "+bad+") between reading items and writing them: a concurrent Upsert can add to the entry after the decision to delete it was taken, and the addition is lost")
+				}
+			}
+			if n < 3 {
+				x.C.Vacuous(x.id()+" writes", n, 3)
+			}
+		}})
+}
